@@ -79,6 +79,7 @@ inductive Task where
   | whileLoop (c : Expr) (b : Stmt) (lbls : List Name) (V : Val)
   | doLoop (b : Stmt) (c : Expr) (lbls : List Name) (V : Val)
   | forLoop (per : List Name) (test upd : Option Expr) (b : Stmt) (lbls : List Name) (V : Val)
+  | forOfLoop (k : DeclKind) (x : Name) (arr : Nat) (i : Nat) (b : Stmt) (lbls : List Name) (V : Val)
 
 abbrev RecE := Expr → Env → St → Res
 abbrev RecC := Val → Val → List Val → St → Res
@@ -554,6 +555,21 @@ def evalFor (recE : RecE) (recT : RecT) (init : ForInit) (test upd : Option Expr
       let q := copyBindings per p.1 st2
       recT (.forLoop per test upd b lbls .undef) q.1 q.2
 
+/-- `for (k x of e) b`: only arrays are iterated (live: length and elements are read per step, as the array
+iterator does); undefined/null are not iterable (TypeError); anything else leaves the fragment. -/
+def evalForOf (recE : RecE) (recT : RecT) (k : DeclKind) (x : Name) (e : Expr) (b : Stmt)
+    (lbls : List Name) (env : Env) (st : St) : Res :=
+  bindVal (recE e env st) fun v st1 =>
+    match v with
+    | .obj id =>
+      match st1.heap[id]? with
+      | some o => if o.isArr then recT (.forOfLoop k x id 0 b lbls .undef) env st1
+                  else .unsup "for-of over a non-array object"
+      | none => .unsup "dangling object"
+    | .undef => throwErr .type st1
+    | .null => throwErr .type st1
+    | _ => .unsup "for-of over a primitive/function"
+
 def stepStmt (recE : RecE) (recS : RecS) (recT : RecT)
     (s : Stmt) (lbls : List Name) (env : Env) (st : St) : Res :=
   match s with
@@ -567,6 +583,7 @@ def stepStmt (recE : RecE) (recS : RecS) (recT : RecT)
   | .while c b => recT (.whileLoop c b lbls .undef) env st
   | .doWhile b c => recT (.doLoop b c lbls .undef) env st
   | .for init test upd b => evalFor recE recT init test upd b lbls env st
+  | .forOf k x e b => evalForOf recE recT k x e b lbls env st
   | .brk l => .done (.brk l none) st
   | .cont l => .done (.cont l none) st
   | .ret none => .done (.ret .undef) st
@@ -615,6 +632,20 @@ def stepFor (recE : RecE) (recS : RecS) (recT : RecT) (per : List Name) (test up
   | none => forBody recE recS recT per test upd b lbls V env st
   | some t => bindVal (recE t env st) fun tv st1 =>
       if !toBool tv then .val V st1 else forBody recE recS recT per test upd b lbls V env st1
+
+/-- One step of for-of: bind element `i` (fresh binding per iteration for let/const), run the body. -/
+def stepForOf (recS : RecS) (recT : RecT) (k : DeclKind) (x : Name) (arr i : Nat) (b : Stmt)
+    (lbls : List Name) (V : Val) (env : Env) (st : St) : Res :=
+  match st.heap[arr]? with
+  | none => .unsup "dangling object"
+  | some o =>
+    if i < o.elems.length then
+      let v := o.elems.getD i .undef
+      let p : Env × St := match k with
+        | .var => (env, initVar env x v st)
+        | _ => let q := alloc st ⟨some v, k == .let⟩; ((x, q.1) :: env, q.2)
+      afterBody (recS b [] p.1 p.2) lbls V fun V' st2 => recT (.forOfLoop k x arr (i + 1) b lbls V') env st2
+    else .val V st
 
 /-! ### Calls -/
 
@@ -673,6 +704,8 @@ def step (P : Prog) (rec : RecT) (t : Task) (env : Env) (st : St) : Res :=
       stepDo (fun e => rec (.expr e)) (fun s l => rec (.stmt s l)) rec b c l V env st
   | .forLoop per test upd b l V =>
       stepFor (fun e => rec (.expr e)) (fun s l => rec (.stmt s l)) rec per test upd b l V env st
+  | .forOfLoop k x arr i b l V =>
+      stepForOf (fun s l => rec (.stmt s l)) rec k x arr i b l V env st
 
 /-- Fuel-indexed big-step evaluation. -/
 def eval (P : Prog) : Nat → RecT
